@@ -254,7 +254,7 @@ def ceval(fn, env):
     return None
 
 
-def trace(fn, bind, interesting, env=None):
+def trace(fn, bind, interesting, env=None, fb=None):
     """Partial evaluation of fn's body with the selector expressions bound by `bind(node) -> int | None`
     and everything else unknown.  Returns the `interesting(call node)` calls that are executed, in
     order.  A branch whose condition cannot be decided from the selector is an error (Unsupported)
@@ -262,6 +262,7 @@ def trace(fn, bind, interesting, env=None):
     from .facts import walk
     env = dict(env or {})
     env["__bind__"] = bind
+    env["__fb__"] = fb if fb is not None else getattr(fn, "fb", None)  # side-effect-free in-repo helpers (classifiers) are evaluated
     out = []
 
     def has_interesting(s):
